@@ -650,6 +650,18 @@ func Check(p Plan) *kit.Violation {
 	}
 	mu.Lock()
 	defer mu.Unlock()
+	// (3b) a closable payload stream: once the request has reached the transport, the stream has been closed - by the
+	// transport, or by the client when it copied the payload for an auth writer (before that point it is the tolerance of
+	// DESIGN.md section 6) (r8)
+	if p.Payload == "readcloser" && bodySrc != nil && rtCalls > 0 && atomic.LoadInt32(&bodySrc.closed) == 0 {
+		settle := time.Now().Add(2 * time.Second)
+		for atomic.LoadInt32(&bodySrc.closed) == 0 && time.Now().Before(settle) {
+			time.Sleep(time.Millisecond)
+		}
+		if atomic.LoadInt32(&bodySrc.closed) == 0 {
+			return kit.Failf("PAYLOAD-NOT-CLOSED: the closable payload stream was handed over, the request reached the transport (auth %s), and the stream was never closed (Submit err=%v)", p.Auth, out.err)
+		}
+	}
 	// (4) response body closed, drained with reuse
 	if body != nil {
 		body.mu.Lock()
